@@ -93,7 +93,7 @@ def atf_rules(run, db):
                     _direction(run, f, p, ['fft2', 'ifft2'], 'shift=%s [%s]' % (shift, par))
                 ok = isinstance(v, Og) and v.o == ohalf(parity) and v.r.is_zero()
                 mism = [e for e in p.events if e['kind'] in ('origin-mismatch', 'real-of-ramped')]
-                fxv = p.frame.env.get('fx')
+                fxv = p.frame.env.get('fx')          # a parameter
                 if isinstance(fxv, Og) and ('grid', repr(fxv)) not in seen:
                     seen.add(('grid', repr(fxv)))
                     want = ohalf(parity) if shift else Ix(0, 0, parity)
@@ -113,13 +113,15 @@ def atf_rules(run, db):
         raise AnalysisError('apply_transfer_functions: loop over tfs not found')
     lp = loops[0]
     tgt = ast.unparse(lp.target)
+    from .common import loop_carried
+    SPEC = loop_carried(lp)          # the running spectrum is what the loop carries from one transfer function to the next
     mults = []
     for st in lp.body:
-        if isinstance(st, ast.Assign) and isinstance(st.value, ast.BinOp) and isinstance(st.value.op, ast.Mult) and ast.unparse(st.targets[0]) == 'O':
+        if isinstance(st, ast.Assign) and isinstance(st.value, ast.BinOp) and isinstance(st.value.op, ast.Mult) and ast.unparse(st.targets[0]) in SPEC:
             ops = {ast.unparse(st.value.left), ast.unparse(st.value.right)}
-            if ops == {'O', tgt}:
+            if ops == {ast.unparse(st.targets[0]), tgt}:
                 mults.append(st)
-        if isinstance(st, ast.AugAssign) and isinstance(st.op, ast.Mult) and ast.unparse(st.target) == 'O' and ast.unparse(st.value) == tgt:
+        if isinstance(st, ast.AugAssign) and isinstance(st.op, ast.Mult) and ast.unparse(st.target) in SPEC and ast.unparse(st.value) == tgt:
             mults.append(st)
     ctl = [n for st in lp.body for n in ast.walk(st) if isinstance(n, (ast.Break, ast.Continue, ast.Return))]
     run.check(len(mults) == 1 and not ctl and not lp.orelse, 'C15.fold', f.qual, 'running product', 'each transfer function multiplies the spectrum exactly once (top level of the loop, no break/continue)',
@@ -247,28 +249,23 @@ def otf_rules(run, db):
         fi = db.func(OT + nm)
         calls = [n for n in walk_no_nested(fi.node) if isinstance(n, ast.Call) and ast.unparse(n.func) == 'transform_psf']
         norm = [n for n in walk_no_nested(fi.node) if isinstance(n, ast.AugAssign) and isinstance(n.op, ast.Div)]
-        ok = len(calls) == 1 and len(norm) == 1 and isinstance(norm[0].value, ast.Subscript) and ast.unparse(norm[0].value.slice).replace(' ', '') in ('cy,cx', '(cy,cx)') \
-            and ast.unparse(norm[0].value.value) == ast.unparse(norm[0].target)
+        # the index is a pair of locals computed from the shape of the transform (their values and axes are C04.centre's business)
+        idx = norm[0].value.slice if len(norm) == 1 and isinstance(norm[0].value, ast.Subscript) else None
+        idn = [e.id for e in idx.elts] if isinstance(idx, ast.Tuple) and len(idx.elts) == 2 and all(isinstance(e, ast.Name) for e in idx.elts) else []
+        from_shape = [n for n in walk_no_nested(fi.node) if isinstance(n, ast.Assign) and any(isinstance(x_, ast.Attribute) and x_.attr == 'shape' for x_ in ast.walk(n.value))
+                      and set(idn) <= {x_.id for t_ in n.targets for x_ in ast.walk(t_) if isinstance(x_, ast.Name)}]
+        ok = len(calls) == 1 and len(norm) == 1 and len(set(idn)) == 2 and bool(from_shape) and ast.unparse(norm[0].value.value) == ast.unparse(norm[0].target)
         run.check(ok, 'C15.dc', fi.qual, 'DC normalisation', '%s divides by its own sample at [cy, cx]' % nm, '%s is not normalised by its own DC sample' % nm, fi.loc())
+    from ..core.pattern import match_all
     fm = db.func(OT + 'mtf_from_psf')
-    src = ast.unparse(fm.node)
-    run.check('dat = abs(data)' in src, 'C15.dc', fm.qual, 'modulus', 'MTF is the modulus of the transform', 'MTF is not abs(transform)', fm.loc())
+    okm = match_all(fm.node, ['V_d, V_df = transform_psf(psf, dx)', 'V_a = abs(V_d)', 'V_a /= V_a[V_i, V_j]', 'return RichData(data=V_a, dx=V_df, wavelength=None)'], ordered=True) is not None \
+        or match_all(fm.node, ['V_d, V_df = transform_psf(psf, dx)', 'V_a = np.abs(V_d)', 'V_a /= V_a[V_i, V_j]', 'return RichData(data=V_a, dx=V_df, wavelength=None)'], ordered=True) is not None
+    run.check(okm, 'C15.dc', fm.qual, 'modulus', 'MTF is the modulus of the transform', 'MTF is not abs(transform)', fm.loc())
     fp = db.func(OT + 'ptf_from_psf')
-    run.check('np.angle(data)' in ast.unparse(fp.node), 'C15.dc', fp.qual, 'phase', 'PTF is the angle of the DC-normalised transform', 'PTF is not angle(transform)', fp.loc())
-    # DC index value for both parities (shared with C04)
-    for nm in ('mtf_from_psf', 'ptf_from_psf', 'otf_from_psf'):
-        fi = db.func(OT + nm)
-        from ..domains.index import parity_classes, ptxt
-        for par in parity_classes(['r', 'c']):
-            it, dom = c04.mk(db, par)
-            res = it.run(fi, kwargs=lambda: {'psf': dom.array('psf', 'r', 'c'), 'dx': dom.sym('dx')})
-            for var, ax in (('cy', 'r'), ('cx', 'c')):
-                vals = c04.var_on_paths(res, var)
-                if not vals:
-                    raise AnalysisError('%s: %s not bound' % (fi.qual, var))
-                v = vals[0][1]
-                run.check(c04.eq(dom, v, c04.half(dom, dom.length(ax))), 'C15.dc', fi.qual, 'DC index ' + var, '%s == %s//2 [%s]' % (var, ax, ptxt(par)),
-                          '%s = %s is not the DC sample n//2 for %s' % (var, c04.sh(dom, v), ptxt(par)), fi.loc())
+    okp = match_all(fp.node, ['V_d, V_df = transform_psf(psf, dx)', 'V_d /= V_d[V_i, V_j]', 'V_a = np.angle(V_d)', 'return RichData(data=V_a, dx=V_df, wavelength=None)'], ordered=True) is not None
+    run.check(okp, 'C15.dc', fp.qual, 'phase', 'PTF is the angle of the DC-normalised transform', 'PTF is not angle(transform)', fp.loc())
+    # DC index value for both parities (the C04 centre rule applied to the three products)
+    c04.centre_sites(run, db, rule='C15.dc', only=[OT + 'mtf_from_psf', OT + 'ptf_from_psf', OT + 'otf_from_psf'])
 
 
 def cache_rules(run, db):
